@@ -28,6 +28,13 @@ pub struct C08Case {
     pub bufs: Vec<u32>,
     /// call to_bytes() once, then change the header through header_mut(), then stream
     pub poke_header: bool,
+    /// how the consumer drives the reader: 0 plain read calls, 1 vectored reads into 2-3 buffers,
+    /// 2 read_to_end, 3 through a BufReader, 4 (blocking consumers) the reader is moved to another
+    /// thread after the first bufs[0] bytes
+    pub style: u8,
+    /// the payload source reports WouldBlock once at this offset (per mille of the payload); the
+    /// consumer retries, as it does for Interrupted
+    pub transient: Option<u16>,
 }
 
 fn c08_case(big: bool) -> BoxedStrategy<C08Case> {
@@ -36,17 +43,25 @@ fn c08_case(big: bool) -> BoxedStrategy<C08Case> {
     } else {
         prop_oneof![1 => Just(vec![]), 1 => any::<u8>().prop_map(|b| vec![b]), 4 => proptest::collection::vec(any::<u8>(), 2..300), 2 => gen::payload()].boxed()
     };
-    let bufs = proptest::collection::vec(prop_oneof![3 => 1u32..8, 3 => 8u32..600, 1 => Just(65536u32), 1 => 600u32..65536], 1..12);
-    (gen::m_msg(2), payload, 0u8..3, (0u8..4, any::<u16>(), any::<u64>(), any::<u64>()), 0u8..4, bufs, prop_oneof![3 => Just(false), 1 => Just(true)])
-        .prop_map(|(mut msg, payload, source, src_sched, consumer, bufs, poke_header)| {
+    // (a zero-length buffer is a legal read request: it returns 0 and must change nothing)
+    let bufs = proptest::collection::vec(prop_oneof![6 => 1u32..8, 6 => 8u32..600, 2 => Just(65536u32), 2 => 600u32..65536, 1 => Just(0u32)], 1..12).prop_map(|mut v| {
+        if v.iter().all(|b| *b == 0) {
+            v.push(7);
+        }
+        v
+    });
+    let style = prop_oneof![5 => Just(0u8), 2 => Just(1u8), 1 => Just(2u8), 1 => Just(3u8), 1 => Just(4u8)];
+    let transient = prop_oneof![5 => Just(None), 1 => (0u16..1000).prop_map(Some)];
+    (gen::m_msg(2), payload, 0u8..3, (0u8..4, any::<u16>(), any::<u64>(), any::<u64>()), 0u8..4, bufs, prop_oneof![3 => Just(false), 1 => Just(true)], style, transient)
+        .prop_map(|(mut msg, payload, source, src_sched, consumer, bufs, poke_header, style, transient)| {
             msg.payload = if source == 0 { vec![] } else { payload };
-            C08Case { msg, source, src_sched, consumer, bufs, poke_header }
+            C08Case { msg, source, src_sched, consumer, bufs, poke_header, style, transient }
         })
         .boxed()
 }
 
 fn c08_json(c: &C08Case) -> Value {
-    json!({"msg": mmsg_json(&c.msg), "source": c.source, "src_sched": [c.src_sched.0 as u64, c.src_sched.1 as u64, c.src_sched.2, c.src_sched.3], "consumer": c.consumer, "bufs": c.bufs, "poke_header": c.poke_header})
+    json!({"msg": mmsg_json(&c.msg), "source": c.source, "src_sched": [c.src_sched.0 as u64, c.src_sched.1 as u64, c.src_sched.2, c.src_sched.3], "consumer": c.consumer, "bufs": c.bufs, "poke_header": c.poke_header, "style": c.style, "transient": c.transient})
 }
 
 fn c08_from_json(v: &Value) -> Option<C08Case> {
@@ -58,7 +73,207 @@ fn c08_from_json(v: &Value) -> Option<C08Case> {
         consumer: v.get("consumer")?.as_u64()? as u8,
         bufs: v.get("bufs")?.as_array()?.iter().map(|x| x.as_u64().unwrap_or(1) as u32).collect(),
         poke_header: v.get("poke_header").and_then(|b| b.as_bool()).unwrap_or(false),
+        style: v.get("style").and_then(|b| b.as_u64()).unwrap_or(0) as u8,
+        transient: v.get("transient").and_then(|b| b.as_u64()).map(|x| x as u16),
     })
+}
+
+#[derive(Clone)]
+struct Plan {
+    bufs: Vec<u32>,
+    style: u8,
+    limit: usize,
+}
+
+fn retryable(e: &std::io::Error) -> bool {
+    matches!(e.kind(), std::io::ErrorKind::Interrupted | std::io::ErrorKind::WouldBlock)
+}
+
+/// one plain or vectored read request of the plan; Ok(None) = end of stream
+fn sync_step<R: Read>(r: &mut R, plan: &Plan, i: &mut usize, scratch: &mut [Vec<u8>; 3], got: &mut Vec<u8>) -> Result<Option<()>, String> {
+    let mut next = || {
+        let n = plan.bufs[*i % plan.bufs.len()] as usize;
+        *i += 1;
+        n
+    };
+    let mut retries = 0;
+    if plan.style == 1 {
+        let sizes = [next(), next(), next()];
+        loop {
+            let [a, b, c] = scratch;
+            let mut slices = [std::io::IoSliceMut::new(&mut a[..sizes[0]]), std::io::IoSliceMut::new(&mut b[..sizes[1]]), std::io::IoSliceMut::new(&mut c[..sizes[2]])];
+            match r.read_vectored(&mut slices) {
+                Ok(0) if sizes.iter().sum::<usize>() == 0 => return Ok(Some(())),
+                Ok(0) => return Ok(None),
+                Ok(mut k) => {
+                    if k > sizes.iter().sum::<usize>() {
+                        return Err(format!("read_vectored returned {k} for buffers of {sizes:?}"));
+                    }
+                    for (buf, sz) in scratch.iter().zip(sizes.iter()) {
+                        let take = k.min(*sz);
+                        got.extend_from_slice(&buf[..take]);
+                        k -= take;
+                    }
+                    return Ok(Some(()));
+                }
+                Err(e) if retryable(&e) && retries < 1000 => retries += 1,
+                Err(e) => return Err(format!("read error {e}")),
+            }
+        }
+    }
+    let n = next();
+    loop {
+        match r.read(&mut scratch[0][..n]) {
+            Ok(0) if n == 0 => return Ok(Some(())),
+            Ok(0) => return Ok(None),
+            Ok(k) if k > n => return Err(format!("read returned {k} for a buffer of {n}")),
+            Ok(k) => {
+                got.extend_from_slice(&scratch[0][..k]);
+                return Ok(Some(()));
+            }
+            Err(e) if retryable(&e) && retries < 1000 => retries += 1,
+            Err(e) => return Err(format!("read error {e}")),
+        }
+    }
+}
+
+fn sync_to_eof<R: Read>(mut r: R, plan: &Plan, mut got: Vec<u8>, mut i: usize) -> Result<(Vec<u8>, usize), String> {
+    let mut scratch = [vec![0u8; 65536], vec![0u8; 65536], vec![0u8; 65536]];
+    if plan.style == 2 {
+        let mut retries = 0;
+        loop {
+            match r.read_to_end(&mut got) {
+                Ok(_) => break,
+                Err(e) if retryable(&e) && retries < 1000 => retries += 1,
+                Err(e) => return Err(format!("read error {e}")),
+            }
+        }
+    } else {
+        while sync_step(&mut r, plan, &mut i, &mut scratch, &mut got)?.is_some() {
+            if got.len() > plan.limit {
+                return Err("stream does not end".into());
+            }
+        }
+    }
+    let mut after = 0;
+    for _ in 0..3 {
+        match r.read(&mut scratch[0][..7]) {
+            Ok(0) => {}
+            Err(e) if retryable(&e) => {}
+            _ => after += 1,
+        }
+    }
+    Ok((got, after))
+}
+
+fn consume_sync<R: Read + Send + 'static>(r: R, plan: Plan) -> Result<(Vec<u8>, usize), String> {
+    match plan.style {
+        3 => sync_to_eof(std::io::BufReader::with_capacity((plan.bufs[0] as usize).max(1), r), &Plan { style: 0, ..plan.clone() }, Vec::new(), 1),
+        4 => {
+            // the first bufs[0] bytes here, the rest on another thread (the reader is Send)
+            let mut r = r;
+            let hop_at = plan.bufs[0] as usize;
+            let inner = Plan { style: 0, ..plan.clone() };
+            let (mut got, mut i) = (Vec::new(), 1usize);
+            let mut scratch = [vec![0u8; 65536], vec![0u8; 65536], vec![0u8; 65536]];
+            while got.len() < hop_at {
+                if sync_step(&mut r, &inner, &mut i, &mut scratch, &mut got)?.is_none() {
+                    break;
+                }
+            }
+            let (tx, rx) = std::sync::mpsc::channel();
+            std::thread::spawn(move || {
+                let _ = tx.send(sync_to_eof(r, &inner, got, i));
+            });
+            match rx.recv_timeout(std::time::Duration::from_secs(10)) {
+                Ok(r) => r,
+                Err(_) => Err("stalled: after the reader was moved to another thread the stream did not complete within 10 s".into()),
+            }
+        }
+        _ => sync_to_eof(r, &plan, Vec::new(), 0),
+    }
+}
+
+async fn consume_async<R: futures_util::io::AsyncRead + Unpin>(r: R, plan: Plan) -> Result<(Vec<u8>, usize), String> {
+    if plan.style == 3 {
+        let inner = Plan { style: 0, ..plan.clone() };
+        return async_to_eof(futures_util::io::BufReader::with_capacity((plan.bufs[0] as usize).max(1), r), inner, 1).await;
+    }
+    async_to_eof(r, plan, 0).await
+}
+
+async fn async_to_eof<R: futures_util::io::AsyncRead + Unpin>(mut r: R, plan: Plan, mut i: usize) -> Result<(Vec<u8>, usize), String> {
+    let mut got = Vec::new();
+    let mut scratch = [vec![0u8; 65536], vec![0u8; 65536], vec![0u8; 65536]];
+    let mut retries = 0;
+    if plan.style == 2 {
+        loop {
+            match AsyncReadExt::read_to_end(&mut r, &mut got).await {
+                Ok(_) => break,
+                Err(e) if retryable(&e) && retries < 1000 => retries += 1,
+                Err(e) => return Err(format!("read error {e}")),
+            }
+        }
+    } else {
+        'stream: loop {
+            let mut next = || {
+                let n = plan.bufs[i % plan.bufs.len()] as usize;
+                i += 1;
+                n
+            };
+            if plan.style == 1 {
+                let sizes = [next(), next(), next()];
+                loop {
+                    let [a, b, c] = &mut scratch;
+                    let mut slices = [std::io::IoSliceMut::new(&mut a[..sizes[0]]), std::io::IoSliceMut::new(&mut b[..sizes[1]]), std::io::IoSliceMut::new(&mut c[..sizes[2]])];
+                    match AsyncReadExt::read_vectored(&mut r, &mut slices).await {
+                        Ok(0) if sizes.iter().sum::<usize>() == 0 => break,
+                        Ok(0) => break 'stream,
+                        Ok(mut k) => {
+                            if k > sizes.iter().sum::<usize>() {
+                                return Err(format!("read_vectored returned {k} for buffers of {sizes:?}"));
+                            }
+                            for (buf, sz) in scratch.iter().zip(sizes.iter()) {
+                                let take = k.min(*sz);
+                                got.extend_from_slice(&buf[..take]);
+                                k -= take;
+                            }
+                            break;
+                        }
+                        Err(e) if retryable(&e) && retries < 1000 => retries += 1,
+                        Err(e) => return Err(format!("read error {e}")),
+                    }
+                }
+            } else {
+                let n = next();
+                loop {
+                    match AsyncReadExt::read(&mut r, &mut scratch[0][..n]).await {
+                        Ok(0) if n == 0 => break,
+                        Ok(0) => break 'stream,
+                        Ok(k) if k > n => return Err(format!("read returned {k} for a buffer of {n}")),
+                        Ok(k) => {
+                            got.extend_from_slice(&scratch[0][..k]);
+                            break;
+                        }
+                        Err(e) if retryable(&e) && retries < 1000 => retries += 1,
+                        Err(e) => return Err(format!("read error {e}")),
+                    }
+                }
+            }
+            if got.len() > plan.limit {
+                return Err("stream does not end".into());
+            }
+        }
+    }
+    let mut after = 0;
+    for _ in 0..3 {
+        match AsyncReadExt::read(&mut r, &mut scratch[0][..7]).await {
+            Ok(0) => {}
+            Err(e) if retryable(&e) => {}
+            _ => after += 1,
+        }
+    }
+    Ok((got, after))
 }
 
 pub fn judge_c08(c: &C08Case, p: &Probe) -> Judge {
@@ -79,14 +294,18 @@ pub fn judge_c08(c: &C08Case, p: &Probe) -> Judge {
     let payload_bytes = std::mem::take(&mut base.payload);
     let mut msg = base.build();
     let mut counters = Vec::new();
+    let fault = c.transient.filter(|_| !payload_bytes.is_empty()).map(|pm| ((payload_bytes.len() * pm as usize) / 1000, std::io::ErrorKind::WouldBlock));
+    if fault.is_some() && c.source != 0 {
+        p.label("payload source reports WouldBlock once");
+    }
     match c.source {
         1 => {
-            let (s, ctr) = Scripted::new(payload_bytes.clone(), sched.clone(), None);
+            let (s, ctr) = Scripted::new(payload_bytes.clone(), sched.clone(), fault);
             counters.push(ctr);
             *msg.payload_mut() = IppPayload::new(s);
         }
         2 => {
-            let (s, ctr) = Scripted::new(payload_bytes.clone(), sched.clone(), None);
+            let (s, ctr) = Scripted::new(payload_bytes.clone(), sched.clone(), fault);
             counters.push(ctr);
             *msg.payload_mut() = IppPayload::new_async(s);
         }
@@ -127,83 +346,29 @@ pub fn judge_c08(c: &C08Case, p: &Probe) -> Judge {
         p.label("payload >= 100 KB");
     }
 
-    let bufs = c.bufs.clone();
-    let limit = expected.len() + 16;
+    let style_names = ["plain reads", "vectored reads", "read_to_end", "through a BufReader", "reader moved to another thread"];
+    let style = if !blocking_consumer && c.style == 4 { 0 } else { c.style % 5 };
+    p.label(&format!("consumer style: {}", style_names[style as usize]));
+    if c.bufs.contains(&0) {
+        p.label("zero-length read requests among the buffers");
+    }
+    let plan = Plan { bufs: c.bufs.clone(), style, limit: expected.len() + 16 };
     let consumer = c.consumer;
     let ctrs: Vec<&std::sync::Arc<Counters>> = counters.iter().collect();
     // returns (bytes, number of non-zero results among 3 extra reads after EOF)
-    let out: Result<Result<(Vec<u8>, usize), String>, String> = catch(move || {
-        let mut got = Vec::new();
-        let mut i = 0usize;
-        let mut buf = vec![0u8; 65536];
-        macro_rules! sync_loop {
-            ($r:expr) => {{
-                let mut r = $r;
-                let mut after = 0;
-                loop {
-                    let n = bufs[i % bufs.len()] as usize;
-                    i += 1;
-                    match Read::read(&mut r, &mut buf[..n]) {
-                        Ok(0) => break,
-                        Ok(k) => got.extend_from_slice(&buf[..k]),
-                        Err(e) if e.kind() == std::io::ErrorKind::Interrupted => continue,
-                        Err(e) => return Err(format!("read error {e}")),
-                    }
-                    if got.len() > limit {
-                        return Err("stream does not end".into());
-                    }
-                }
-                for _ in 0..3 {
-                    match Read::read(&mut r, &mut buf[..7]) {
-                        Ok(0) => {}
-                        Err(e) if e.kind() == std::io::ErrorKind::Interrupted => {}
-                        _ => after += 1,
-                    }
-                }
-                Ok((got, after))
-            }};
-        }
-        macro_rules! async_loop {
-            ($r:expr) => {{
-                let mut r = $r;
-                let fut = async move {
-                    let mut after = 0;
-                    loop {
-                        let n = bufs[i % bufs.len()] as usize;
-                        i += 1;
-                        // no retry convention exists for AsyncRead: any error ends the stream for a real
-                        // consumer (an HTTP body stream, say)
-                        match AsyncReadExt::read(&mut r, &mut buf[..n]).await {
-                            Ok(0) => break,
-                            Ok(k) => got.extend_from_slice(&buf[..k]),
-                            Err(e) => return Err(format!("read error {e}")),
-                        }
-                        if got.len() > limit {
-                            return Err("stream does not end".into());
-                        }
-                    }
-                    for _ in 0..3 {
-                        match AsyncReadExt::read(&mut r, &mut buf[..7]).await {
-                            Ok(0) => {}
-                            _ => after += 1,
-                        }
-                    }
-                    Ok((got, after))
-                };
-                match drive(fut, &ctrs, 200_000_000) {
-                    Ok(r) => r,
-                    Err(e) => Err(format!("executor: {e:?}")),
-                }
-            }};
-        }
-        match consumer {
-            0 => sync_loop!(msg.into_read()),
-            1 => async_loop!(Box::pin(msg.into_async_read())),
-            2 => sync_loop!(msg.into_payload()),
-            _ => async_loop!(msg.into_payload()),
-        }
+    let out: Result<Result<(Vec<u8>, usize), String>, String> = catch(move || match consumer {
+        0 => consume_sync(msg.into_read(), plan),
+        2 => consume_sync(msg.into_payload(), plan),
+        1 => match drive(consume_async(Box::pin(msg.into_async_read()), plan), &ctrs, 200_000_000) {
+            Ok(r) => r,
+            Err(e) => Err(format!("executor: {e:?}")),
+        },
+        _ => match drive(consume_async(msg.into_payload(), plan), &ctrs, 200_000_000) {
+            Ok(r) => r,
+            Err(e) => Err(format!("executor: {e:?}")),
+        },
     });
-    let ctxs = format!("source {} ({} chunks), consumer {}", src_names[c.source as usize], sched.chunks.len(), cons_names[c.consumer as usize]);
+    let ctxs = format!("source {} ({} chunks), consumer {} ({})", src_names[c.source as usize], sched.chunks.len(), cons_names[c.consumer as usize], style_names[style as usize]);
     match out {
         Err(pn) => Err(Fail::new(format!("C08/{}", panic_sig(&pn)), format!("{ctxs}: panicked: {pn}"))),
         Ok(Err(e)) => Err(Fail::new(format!("C08/stream-error/{}", e.split_whitespace().next().unwrap_or("")), format!("{ctxs}: {e}"))),
@@ -223,7 +388,7 @@ pub fn judge_c08(c: &C08Case, p: &Probe) -> Judge {
 
 pub fn run_c08(ctx: &Ctx) {
     ctx.enable_traced_pass(4);
-    ctx.set_rule("proptest-generated model messages x payload source {none, blocking Read, AsyncRead} (scripted: fragmented, with Interrupted/Pending results) x payload bytes (0 B - 64 KiB; multi-MiB in the big-payload sub-run) x consumer {into_read, into_async_read, IppPayload as Read, IppPayload as AsyncRead} x a generated sequence of consumer buffer sizes (1 B - 64 KiB, varying per call): the concatenated output must equal to_bytes() (taken from the same instance) ++ payload bytes (payload only for the IppPayload consumers), then three further reads report end-of-stream. Non-trivial = payload >= 2 bytes split by both the source fragmentation and the consumer buffers, or a sync<->async bridge with a non-empty payload; distinct by case hash.");
+    ctx.set_rule("proptest-generated model messages x payload source {none, blocking Read, AsyncRead} (scripted: fragmented, with Interrupted/Pending results) x payload bytes (0 B - 64 KiB; multi-MiB in the big-payload sub-run) x consumer {into_read, into_async_read, IppPayload as Read, IppPayload as AsyncRead} x a generated sequence of consumer buffer sizes (0 B - 64 KiB, varying per call; a zero-length request must return 0 and change nothing) x consumer style {plain read calls, vectored reads into three buffers, read_to_end, through a BufReader, reader moved to another thread mid-stream} x optionally one transient WouldBlock from the payload source (the consumer retries it like Interrupted): the concatenated output must equal to_bytes() (taken from the same instance) ++ payload bytes (payload only for the IppPayload consumers), then three further reads report end-of-stream. Non-trivial = payload >= 2 bytes split by both the source fragmentation and the consumer buffers, or a sync<->async bridge with a non-empty payload; distinct by case hash.");
     ctx.assume("for an async payload read through the blocking interface the library calls block_on: only immediately-woken Pending is explored there");
     let (shards, per) = ctx.tier.pick((16, 2500), (16, 40000));
     run_prop(ctx, "stream", shards, per, || c08_case(false), judge_c08, c08_json);
